@@ -952,7 +952,8 @@ class Footnote(BlockToken):
                     return None
             elif c == ']':
                 label = string[start + 1:i]
-                if label.strip() != '':
+                # a link label has at most 999 characters between the brackets
+                if label.strip() != '' and len(label) <= 999:
                     return start, i + 1, label
                 return None
             # only spaces allowed before the opening bracket
